@@ -344,4 +344,72 @@ def cvPoissonSpec (F P : Nat) (mu lg : Nat → Nat → Nat → α) (a b : Nat) :
 
 end generic
 
+/-! ### dispatch of the Python layer and of the kernel (generated tables, round 3)
+
+`calc_rdm_unbalanced` / `calc_one_similarity` translate the method name into `method_idx`, the
+weighting into `weight_idx` and decide the `crossval` flag; `calc` / `calc_one` select the
+per-pair kernel by `method_idx`.  The tables are *generated* from the source text
+(`Gen.C15.mi*`, `cv*`, `wi*`, `kernOfIdx*`); the driver dispatches through them. -/
+
+/-- `method_idx` handed to `calc` by `calc_rdm_unbalanced` -/
+def methodIdx (m : String) : Option Nat :=
+  if m = "euclidean" then some miEuclidean
+  else if m = "correlation" then some miCorrelation
+  else if m = "mahalanobis" then some miMahalanobis
+  else if m = "crossnobis" then some miCrossnobis
+  else if m = "poisson" then some miPoisson
+  else if m = "poisson_cv" then some miPoissonCv
+  else none
+
+/-- `method_idx` handed to `calc_one` by `calc_one_similarity` -/
+def oneMethodIdx (m : String) : Option Nat :=
+  if m = "euclidean" then some oneMiEuclidean
+  else if m = "correlation" then some oneMiCorrelation
+  else if m = "mahalanobis" then some oneMiMahalanobis
+  else if m = "crossnobis" then some oneMiCrossnobis
+  else if m = "poisson" then some oneMiPoisson
+  else if m = "poisson_cv" then some oneMiPoissonCv
+  else none
+
+/-- the `crossval` flag handed to `calc` (C int), without / with a `cv_descriptor` -/
+def crossvalFlag (m : String) (cvGiven : Bool) : Option Nat :=
+  if m = "euclidean" then some (if cvGiven then cvEuclideanGiven else cvEuclideanNone)
+  else if m = "correlation" then some (if cvGiven then cvCorrelationGiven else cvCorrelationNone)
+  else if m = "mahalanobis" then some (if cvGiven then cvMahalanobisGiven else cvMahalanobisNone)
+  else if m = "crossnobis" then some (if cvGiven then cvCrossnobisGiven else cvCrossnobisNone)
+  else if m = "poisson" then some (if cvGiven then cvPoissonGiven else cvPoissonNone)
+  else if m = "poisson_cv" then some (if cvGiven then cvPoissonCvGiven else cvPoissonCvNone)
+  else none
+
+/-- `weight_idx` of the two weightings (`calc` tests `weighting == 1` for 'number') -/
+def weightIdx (number : Bool) : Nat := if number then wiNumber else wiEqual
+def oneWeightIdx (number : Bool) : Nat := if number then oneWiNumber else oneWiEqual
+
+/-- which kernel `method_idx` selects inside `calc` / `calc_one`
+    (1 `euclid`, 2 `correlation`, 3 `mahalanobis`, 4 `poisson_cv`; 0 = rejected) -/
+def kernCode (idx : Nat) (noiseGiven : Bool) : Nat :=
+  if idx = 1 then kernOfIdx1
+  else if idx = 2 then kernOfIdx2
+  else if idx = 3 then (if noiseGiven then kernOfIdx3 else kernOfIdx3Nonoise)
+  else if idx = 4 then kernOfIdx4
+  else 0
+
+section generic2
+variable {α : Type} [Add α] [Sub α] [Mul α] [Div α] [Neg α] [Zero α] [One α] [NatCast α]
+  [LT α] [DecidableLT α] [LE α] [DecidableLE α] [Max α] [Min α] [HasSqrt α] [HasLog α]
+
+/-- the per-pair kernel by code; the precision is only consulted by code 3 -/
+def kernByCode (code : Nat) (coded : Bool) (P : Nat) (N : Nat → Nat → α) (lam pw : α)
+    (x y : Nat → Option α) : Option (α × α) :=
+  if code = 1 then some (euclidK P x y)
+  else if code = 2 then some (corrK coded P x y)
+  else if code = 3 then some (mahalK coded P N x y)
+  else if code = 4 then some (poissonK P (poissonPrep lam pw x) (poissonPrep lam pw y))
+  else none
+
+end generic2
+
+/-- NaN flag of an entry as the kernels test it (`isnan`) -/
+def nanFlag {β : Type} (o : Option β) : Nat := match o with | some _ => 0 | none => 1
+
 end Rsa.Unb
